@@ -350,6 +350,19 @@ let optable_cmd = function
                          (match inputs with L l -> l | _ -> failwith "inputs"))
   | _ -> failwith "optable args"
 
+(* the declarative judgement of PrecOk.v applied to trees (of the implementation) *)
+let rec to_tree = function
+  | L [A "d"; v] -> Opd (to_nat v)
+  | L [A "pre"; o; t] -> Pre (to_nat o, to_tree t)
+  | L [A "post"; t; o] -> Post (to_tree t, to_nat o)
+  | L [A "inf"; l; o; r] -> Inf (to_tree l, to_nat o, to_tree r)
+  | _ -> failwith "tree"
+let pok_cmd = function
+  | [tb; trees] ->
+    let tb = to_list (function L [a; names] -> (to_assoc a, to_list to_nat names) | _ -> failwith "row") tb in
+    String.concat "|" (List.map (fun t -> pb (pok tb (to_tree t))) (match trees with L l -> l | _ -> failwith "trees"))
+  | _ -> failwith "pok args"
+
 (* flags of every node, preorder *)
 let rec children = function
   | Seq es | Choice es | Skip es | Longest es -> es
@@ -377,6 +390,7 @@ let dispatch = function
   | L (A "transform" :: args) -> transform_cmd args
   | L (A "pyeq" :: args) -> pyeq_cmd args
   | L (A "optable" :: args) -> optable_cmd args
+  | L (A "pok" :: args) -> pok_cmd args
   | _ -> failwith "unknown command"
 
 let () =
